@@ -42,6 +42,25 @@ CHECKS = {
                      "and leaves the object reusable, overlapping calls raise RuntimeError while tasks are incomplete.",
                 note="Same trusted base as C01; availability is stamped at callback start and judged per batch; a "
                      "generator dropped by a foreign thread counts as over once joblib's helper thread has finished."),
+    "C15": dict(engine="detsched+simpool", cat="exploration", ref="DESIGN.md section 3 (C15)",
+                technique="deterministic simulation on a simulated machine (cpu count / affinity / LOKY_MAX_CPU_COUNT / "
+                          "cgroup seams) with seeded schedules and nesting shapes; sizes requested from every pool factory "
+                          "and the high-water mark of running tasks are the observations",
+                text="Decides that joblib asks for exactly the resolved n_jobs from every pool/executor factory, keeps "
+                     "n_jobs=1 in the calling thread, rejects 0, computes cpu_count() >= 1 within every limit, uses "
+                     "threads for the first nesting level and nothing below, and never requests process workers from "
+                     "inside a worker; the concurrency bound itself is true by construction of an n-slot stub pool and "
+                     "is only cross-checked (honest limit in DESIGN.md).",
+                note="Real pools are assumed to honour their size. Guards that inspect the real process (daemon flag, "
+                     "main thread of a worker process) are exercised for thread workers only."),
+    "C17": dict(engine="detsched", cat="exploration", ref="DESIGN.md section 3 (C17)",
+                technique="deterministic simulation: generated nested-context programs on 1-4 simulated threads "
+                          "interleaved at statement and line level, compared with a per-thread reference model",
+                text="Reference-model comparison of every Parallel construction and get_active_backend probe "
+                     "(backend class, n_jobs, six backend kwargs, ValueError cases), restoration after every block exit "
+                     "(normal or by exception), defaults in fresh threads spawned inside a block, no leak at thread end.",
+                note="The model is the statement's precedence rule plus the documented fall-backs; joblib itself is "
+                     "not stubbed, only the thread scheduler is simulated."),
 }
 NOT_APPLICABLE = {
     "C03": "pure function of (object, compressor, protocol, target): no schedule, clock, fault or history for a simulator to own; input enumeration is not this technique (its damaged-file cousin is C14, its stateful reader C13)",
